@@ -46,7 +46,7 @@ class Recorder:
         self._open_idx = []
         if self.crash_at is not None and idx == self.crash_at:
             os._exit(77)
-        if self.exc_at is not None and idx == self.exc_at:
+        if self.exc_at is not None and idx == self.exc_at and name not in ('rm_begin', 'rm_end', 'end'):  # (markers are not operations)
             self.ops.append(('exc', p, None))
             raise OSError(28, 'injected failure of a file-system operation')
         self.ops.append((name, p, os.fspath(path2) if path2 is not None else None))
@@ -108,17 +108,27 @@ class Recorder:
                 if k.get('ignore_errors') or (a and a[0]):
                     return None
                 return o['rmtree'](path, *a, **k)
-            rec.hit('rm_begin', p)
+            ignore = bool(k.get('ignore_errors') or (a and a[0]))
+
+            def step(fn, *args):
+                # (shutil.rmtree(ignore_errors=True) swallows the failure of every single operation and goes on)
+                try:
+                    fn(*args)
+                except OSError:
+                    if not ignore:
+                        raise
+
+            step(rec.hit, 'rm_begin', p)
             for dirpath, dirnames, filenames in os.walk(p, topdown=False):
                 for f in filenames:
-                    unlink(os.path.join(dirpath, f))
+                    step(unlink, os.path.join(dirpath, f))
                 for d in dirnames:
                     full = os.path.join(dirpath, d)
                     if os.path.islink(full):
-                        unlink(full)
+                        step(unlink, full)
                     else:
-                        rmdir(full)
-            rmdir(p)
+                        step(rmdir, full)
+            step(rmdir, p)
             rec.hit('rm_end', p)
 
         builtins.open = open_
